@@ -155,9 +155,16 @@ func (w *c11World) handler(srv int, lg *rng.R) func(ctx context.Context, resp []
 			return finish(nil, -1)
 		}
 		n := copy(resp, want)
+		if !bytes.Equal(m.Payload, p) {
+			// the request is the handler's to read for as long as it runs
+			w.viol("request-buffer-changed-during-handler", "the request payload handed to an ask handler was overwritten while the handler was still running", map[string]any{"server": srv, "request_seq": e.Seq, "request_len": len(p)})
+		}
 		if e.Tag == bhSlow && e.Seq%2 == 1 {
 			// the handler has written its answer and keeps working for a while: the response buffer is its own until it returns
 			time.Sleep(time.Duration(200+lg.Intn(1500)) * time.Microsecond)
+			if !bytes.Equal(m.Payload, p) {
+				w.viol("request-buffer-changed-during-handler", "the request payload handed to an ask handler was overwritten while the handler was still running", map[string]any{"server": srv, "request_seq": e.Seq, "request_len": len(p)})
+			}
 			if !bytes.Equal(resp[:n], want) {
 				w.viol("handler-buffer-written-by-others", "the response buffer handed to an ask handler was overwritten while the handler was still running (it is shared with another invocation)", map[string]any{"server": srv, "request_seq": e.Seq, "response_len": n})
 			}
